@@ -50,6 +50,10 @@ fn main() {
             eprintln!("MACHINERY: this artefact records a process abort without a case; rerun `./check {} quick` to reproduce", prop);
             std::process::exit(2);
         }
+        if matches!(v["case"]["kind"].as_str(), Some("discovery-stage") | Some("socket-race")) {
+            eprintln!("MACHINERY: this artefact records an observation made on running services over real sockets (a sequence of datagrams and API calls, not a single case); rerun `./check {} quick` to reproduce", prop);
+            std::process::exit(2);
+        }
         if std::env::var("MC_CHILD").is_err() {
             engine::install_abort_handler(&prop, &std::env::var("VERIF_ROOT").unwrap_or_else(|_| "/verif".into()));
         }
